@@ -316,3 +316,474 @@ Qed.
 
 Lemma len_cons (A : Type) (x : A) t : len (x :: t) = 1 + len t.
 Proof. unfold len. cbn [length]. lia. Qed.
+
+(* ================================================================== Part 3: the operations *)
+Definition sat (x : expect) (r : srv_out) : Prop :=
+  match x with
+  | XAny => True
+  | XResp _ _ _ rsp => r = OBytes rsp
+  | XProps p => forall p' t, r = OBytes (11 :: p' :: t) -> p' = p
+  | XVal _ v wl =>
+      exists lg, r = OValue v lg /\
+                 match wl, lg with
+                 | Some (w, e), Some (_, w', e') => w = w' /\ e = e'
+                 | None, None => True
+                 | _, _ => False
+                 end
+  end.
+
+(* no characteristic has a read handler together with no_read_access (the known finding of C06) *)
+Definition no_k1 (c : cfg) : Prop :=
+  forall i s ch g cci, attribute_at c i = Some (AValue s ch g cci) -> k1 ch = false.
+
+(* l2cap_input: the preamble and the framing of the result, the handler chosen by the opcode *)
+Lemma att_input_inv c st cid op t n st' rs k :
+  get_conn st cid = Some k -> att_input c st cid (op :: t) n = Some (st', rs) ->
+  let out_size := N.min n (negotiated_mtu c k) in
+  let pdu := op :: t in
+  let b := repeat fill_byte (N.to_nat n) in
+  23 <= out_size /\
+  exists b' m, m <= len b' /\ rs = takeN m b' /\
+    (if op =? 1 then Some (st, (b, 0))
+     else if op =? 2 then handle_exchange_mtu c st cid pdu b out_size
+     else if op =? 4 then do x <- handle_find_information c pdu b out_size; Some (st, x)
+     else if op =? 6 then do x <- handle_find_by_type_value c st cid pdu b out_size; Some (st, x)
+     else if op =? 8 then handle_read_by_type c st cid pdu b out_size
+     else if op =? 10 then handle_read c st cid pdu b out_size
+     else if op =? 12 then handle_read_blob c st cid pdu b out_size
+     else if op =? 16 then do x <- handle_read_by_group_type c pdu b out_size; Some (st, x)
+     else if op =? 14 then handle_read_multiple c st cid pdu b out_size
+     else if op =? 18 then handle_write_request c st cid pdu b out_size
+     else if op =? 82 then handle_write_command c st cid pdu b out_size
+     else if op =? 22 then handle_prepare_write c st cid pdu b out_size
+     else if op =? 24 then handle_execute_write c st cid pdu b out_size
+     else if op =? 30 then handle_confirmation c st cid pdu b out_size
+     else do x <- error_response op err_request_not_supported 0 b out_size; Some (st, x)) = Some (st', (b', m)).
+Proof.
+  intros G. unfold att_input. rewrite G. rewrite len_cons.
+  destruct (1 + len t =? 0) eqn:E0; [apply N.eqb_eq in E0; lia|].
+  destruct (N.min n (negotiated_mtu c k) <? default_att_mtu) eqn:E1; [discriminate|].
+  apply N.ltb_ge in E1. rewrite rd_0. intros H. cbv zeta. split; [exact E1|].
+  match type of H with match ?X with Some _ => _ | None => None end = _ => destruct X as [[st1 [b1 m1]]|] eqn:E2; [|discriminate] end.
+  destruct (m1 <=? len b1) eqn:E3; [|discriminate]. apply N.leb_le in E3. apply some_inj in H. apply pair_inj in H. destruct H as [-> <-].
+  exists b1, m1. split; [exact E3|]. split; [reflexivity|]. reflexivity.
+Qed.
+
+Lemma char_properties_spec ch : char_properties ch = spec_properties ch.
+Proof.
+  unfold char_properties, spec_properties, v_has_read, v_has_write, v_has_wwr, v_has_notification, v_has_indication,
+    spec_readable, spec_writable, stored.
+  destruct (c_value ch); cbn [andb negb]; rewrite ?andb_true_r, ?andb_false_r; reflexivity.
+Qed.
+
+Lemma value_read_not_equal c st sec s ch g off maxlen st' rc d :
+  value_read c st sec s ch g off maxlen = (st', rc, d) -> rc <> ValueEqual.
+Proof.
+  unfold value_read. rewrite security_check_spec. destruct (sec_error _ _ _); [intros H; inv H; discriminate|].
+  destruct (c_value ch) as [size k|size v|bytes|size hrd hwr blob]; unfold mem_read.
+  - destruct (c_no_read ch); [intros H; inv H; discriminate|]. destruct (_ <? _); intros H; inv H; discriminate.
+  - destruct (c_no_read ch); [intros H; inv H; discriminate|]. destruct (_ <? _); intros H; inv H; discriminate.
+  - destruct (_ <? _); intros H; inv H; discriminate.
+  - destruct (negb hrd); [intros H; inv H; discriminate|]. destruct (negb blob && _); [intros H; inv H; discriminate|].
+    destruct (_ <? _); intros H; inv H; discriminate.
+Qed.
+
+(* every read access changes read counters only *)
+Lemma access_read_same c st cid a i off maxlen st' rc d :
+  access_read c st cid a i off maxlen = Some (st', rc, d) -> same_but_reads st st'.
+Proof.
+  unfold access_read. destruct (get_conn st cid) as [k|]; [|discriminate].
+  destruct a as [s|u|s ch|s ch g cci|s ch cci|nm|u v].
+  - destruct (mem_read _ _ _). intros H; inv H. apply same_but_reads_refl.
+  - destruct (mem_read _ _ _). intros H; inv H. apply same_but_reads_refl.
+  - destruct (char_decl_value c ch i); [|discriminate]. destruct (mem_read _ _ _). intros H; inv H. apply same_but_reads_refl.
+  - intros H. apply some_inj in H. apply value_read_spec in H. apply H.
+  - destruct (security_check _ _ _); try (intros H; inv H; apply same_but_reads_refl).
+    destruct (mem_read _ _ _). intros H; inv H. apply same_but_reads_refl.
+  - destruct (mem_read _ _ _). intros H; inv H. apply same_but_reads_refl.
+  - destruct (mem_read _ _ _). intros H; inv H. apply same_but_reads_refl.
+Qed.
+
+
+Lemma attr_of_index c h : h <> 0 -> index_by_handle c h <> invalid_index -> attr_of c h = attribute_at c (index_by_handle c h).
+Proof.
+  intros H0 Hi. unfold attr_of. destruct (h =? 0) eqn:E; [apply N.eqb_eq in E; contradiction|].
+  destruct (index_by_handle c h =? invalid_index) eqn:E1; [apply N.eqb_eq in E1; contradiction|]. reflexivity.
+Qed.
+
+Lemma takeN_cons_inv (n : N) (v : list N) p t : takeN n v = p :: t -> exists t', v = p :: t'.
+Proof. unfold takeN. destruct (N.to_nat n); [discriminate|]. destruct v as [|x v']; [discriminate|]. cbn. intros H. inv H. eexists. reflexivity. Qed.
+
+Lemma mem_read_not_equal mem off maxlen rc d : mem_read mem off maxlen = (rc, d) -> rc <> ValueEqual.
+Proof. unfold mem_read. destruct (_ <? _); intros H; inv H; discriminate. Qed.
+
+Lemma access_read_not_equal c st cid a i off maxlen st' rc d :
+  access_read c st cid a i off maxlen = Some (st', rc, d) -> rc <> ValueEqual.
+Proof.
+  unfold access_read. destruct (get_conn st cid) as [k|]; [|discriminate].
+  destruct a as [s|u|s ch|s ch g cci|s ch cci|nm|u v].
+  - destruct (mem_read _ _ _) eqn:E. intros H; inv H. eapply mem_read_not_equal; eauto.
+  - destruct (mem_read _ _ _) eqn:E. intros H; inv H. eapply mem_read_not_equal; eauto.
+  - destruct (char_decl_value c ch i); [|discriminate]. destruct (mem_read _ _ _) eqn:E. intros H; inv H. eapply mem_read_not_equal; eauto.
+  - intros H. apply some_inj in H. eapply value_read_not_equal; eauto.
+  - rewrite security_check_spec. destruct (sec_error _ _ _); [intros H; inv H; discriminate|].
+    destruct (mem_read _ _ _) eqn:E. intros H; inv H. eapply mem_read_not_equal; eauto.
+  - destruct (mem_read _ _ _) eqn:E. intros H; inv H. eapply mem_read_not_equal; eauto.
+  - destruct (mem_read _ _ _) eqn:E. intros H; inv H. eapply mem_read_not_equal; eauto.
+Qed.
+
+(* the bytes of a Read / Read Blob response *)
+Lemma read_resp_exact (st1 st' : srv_state) rc d b rsp op h out_size b' m :
+  23 <= out_size -> rc <> ValueEqual ->
+  match rc with
+  | Success => do b1 <- put b 1 d; do b2 <- put b1 0 [rsp]; Some (st1, (b2, 1 + len d))
+  | _ => do e <- error_response op (att_code rc err_read_not_permitted) h b out_size; Some (st1, e)
+  end = Some (st', (b', m)) ->
+  st' = st1 /\ m <= len b' /\ takeN m b' = match to_ares rc with AOk => rsp :: d | AErr e => err_rsp op h e end.
+Proof.
+  intros Ho NE H. destruct rc as [|code|]; [| |contradiction].
+  - mon. destruct (put_data_then_opcode _ _ _ _ _ E E0) as [L T]. repeat split; assumption.
+  - mon. destruct (error_response_exact _ _ _ _ out_size _ _ ltac:(lia) E) as [L T]. repeat split; assumption.
+Qed.
+
+(* Read / Read Blob of an existing attribute *)
+Lemma read_common_sim c st a cid k pdu op b out_size rsp h off n jd st' b' m :
+  sim c st a -> get_conn st cid = Some k -> no_k1 c ->
+  rd pdu 0 = Some op -> 23 <= out_size -> out_size = out_limit c a cid n ->
+  h <> 0 -> index_by_handle c h <> invalid_index -> (jd = true -> off = 0 /\ rsp = 11) ->
+  handle_read_common c st cid pdu b out_size rsp h (index_by_handle c h) off = Some (st', (b', m)) ->
+  same_but_reads st st' /\ m <= len b' /\ sat (aread c a cid op rsp h off n jd) (OBytes (takeN m b')).
+Proof.
+  intros S G NK Hop Ho Hl H0 Hi Hjd. unfold handle_read_common. rewrite Hop.
+  unfold aread. rewrite (attr_of_index c h H0 Hi).
+  destruct (attribute_at c (index_by_handle c h)) as [at_|] eqn:EA; [|discriminate].
+  destruct (access_read c st cid at_ (index_by_handle c h) off (out_size - 1)) as [[[st1 rc] d]|] eqn:ER; [|discriminate].
+  pose proof (access_read_same _ _ _ _ _ _ _ _ _ _ ER) as Same.
+  pose proof (access_read_not_equal _ _ _ _ _ _ _ _ _ _ ER) as NE.
+  pose proof (sim_conn c st a cid k S G) as K.
+  intros H. destruct (read_resp_exact _ _ _ _ _ _ _ _ _ _ _ Ho NE H) as (-> & L & T). clear H.
+  split; [exact Same|]. split; [exact L|].
+  destruct at_ as [s|u|s ch|s ch g cci|s ch cci|nm|u v]; try exact I.
+  - (* characteristic declaration *)
+    destruct jd; [|exact I]. cbn [sat]. intros p' t HB.
+    assert (HT : takeN m b' = 11 :: p' :: t) by (inversion HB; reflexivity). clear HB. rewrite T in HT. clear T.
+    destruct (Hjd eq_refl) as [-> ->].
+    unfold access_read in ER. rewrite G in ER.
+    destruct (char_decl_value c ch (index_by_handle c h)) as [v|] eqn:EV; [|discriminate].
+    unfold mem_read in ER. destruct (len v <? 0) eqn:EO; [apply N.ltb_lt in EO; lia|].
+    apply some_inj in ER. apply pair_inj in ER. destruct ER as [ER Ed]. apply pair_inj in ER. destruct ER as [_ <-].
+    cbn [to_ares] in HT. apply (f_equal (@tl N)) in HT. cbn [tl] in HT. rewrite <- Ed in HT.
+    apply takeN_cons_inv in HT. destruct HT as [t' Hv].
+    unfold char_decl_value in EV. destruct (handle_by_index c (index_by_handle c h + 1) =? invalid_handle); [discriminate|].
+    apply some_inj in EV. unfold dropN in Hv. cbn [N.to_nat skipn] in Hv. rewrite <- EV in Hv.
+    apply (f_equal (fun l => nth 0 l 0)) in Hv. cbn [nth] in Hv. rewrite <- Hv. apply char_properties_spec.
+  - (* characteristic value *)
+    unfold access_read in ER. rewrite G in ER. apply some_inj in ER.
+    apply value_read_spec in ER. destruct ER as [_ ER]. specialize (ER (NK _ _ _ _ _ EA)).
+    rewrite K. cbn [ac_enc ac_pair aconn_of_conn]. rewrite (sim_vals S), <- Hl, ER.
+    cbn [sat]. rewrite T. reflexivity.
+  - (* client characteristic configuration *)
+    unfold access_read in ER. rewrite G in ER. rewrite K. cbn [ac_enc ac_pair aconn_of_conn fst snd] in *.
+    rewrite security_check_spec, <- spec_protected_eq in ER.
+    destruct (sec_error (spec_protected c s ch) (encrypted k) (pairing k)) as [e|]; [|exact I].
+    apply some_inj in ER. apply pair_inj in ER. destruct ER as [ER <-]. apply pair_inj in ER. destruct ER as [_ <-].
+    cbn [sat]. rewrite T. reflexivity.
+Qed.
+
+Lemma attr_of_zero c : attr_of c 0 = None.
+Proof. reflexivity. Qed.
+
+Lemma attr_of_invalid c h : index_by_handle c h = invalid_index -> attr_of c h = None.
+Proof. intros E. unfold attr_of. destruct (h =? 0); [reflexivity|]. rewrite E. reflexivity. Qed.
+
+Lemma aread_none c a cid op rsp h off n jd : attr_of c h = None -> aread c a cid op rsp h off n jd = XAny.
+Proof. intros E. unfold aread. rewrite E. reflexivity. Qed.
+
+(* check_handle on a request  op lo hi ... *)
+Lemma check_handle_cases c op lo hi t b out_size r :
+  23 <= out_size ->
+  check_handle c (op :: lo :: hi :: t) b out_size = Some r ->
+  let h := lo + 256 * hi in
+  (exists b' m, r = Failed (b', m) /\ m <= len b' /\ attr_of c h = None)
+  \/ (r = Passed (h, index_by_handle c h) /\ h <> 0 /\ index_by_handle c h <> invalid_index).
+Proof.
+  intros Ho. unfold check_handle. rewrite rd_0, rd16_1. cbv zeta.
+  destruct (lo + 256 * hi =? 0) eqn:E0.
+  - apply N.eqb_eq in E0. intros H. mon. match goal with X : error_response _ _ _ _ _ = Some ?p |- _ => destruct p as [b' m] end. left. exists b', m.
+    destruct (error_response_exact _ _ _ _ out_size _ _ ltac:(lia) E) as [L _]. rewrite E0. repeat split; auto.
+  - apply N.eqb_neq in E0. destruct (index_by_handle c (lo + 256 * hi) =? invalid_index) eqn:E1.
+    + apply N.eqb_eq in E1. intros H. mon. match goal with X : error_response _ _ _ _ _ = Some ?p |- _ => destruct p as [b' m] end. left. exists b', m.
+      destruct (error_response_exact _ _ _ _ out_size _ _ ltac:(lia) E) as [L _]. repeat split; auto. apply attr_of_invalid. exact E1.
+    + apply N.eqb_neq in E1. intros H. mon. right. repeat split; auto.
+Qed.
+
+Lemma handle_read_sim c st a cid k lo hi b out_size n st' b' m :
+  sim c st a -> get_conn st cid = Some k -> no_k1 c -> 23 <= out_size -> out_size = out_limit c a cid n ->
+  handle_read c st cid [10; lo; hi] b out_size = Some (st', (b', m)) ->
+  same_but_reads st st' /\ m <= len b' /\ sat (aread c a cid 10 11 (lo + 256 * hi) 0 n true) (OBytes (takeN m b')).
+Proof.
+  intros S G NK Ho Hl. unfold handle_read, check_size_and_handle. rewrite rd_0. cbn [len length N.of_nat Pos.of_succ_nat Pos.succ N.eqb Pos.eqb negb].
+  destruct (check_handle c [10; lo; hi] b out_size) as [r|] eqn:EC; [|discriminate].
+  destruct (check_handle_cases _ _ _ _ _ _ _ _ Ho EC) as [(b1 & m1 & -> & L & EA)|(-> & H0 & Hi)].
+  - intros H. mon. split; [apply same_but_reads_refl|]. split; [exact L|]. rewrite aread_none by exact EA. exact I.
+  - intros H. eapply read_common_sim; eauto. apply rd_0.
+Qed.
+
+Lemma handle_read_blob_sim c st a cid k lo hi olo ohi b out_size n st' b' m :
+  sim c st a -> get_conn st cid = Some k -> no_k1 c -> 23 <= out_size -> out_size = out_limit c a cid n ->
+  handle_read_blob c st cid [12; lo; hi; olo; ohi] b out_size = Some (st', (b', m)) ->
+  same_but_reads st st' /\ m <= len b' /\ sat (aread c a cid 12 13 (lo + 256 * hi) (olo + 256 * ohi) n false) (OBytes (takeN m b')).
+Proof.
+  intros S G NK Ho Hl. unfold handle_read_blob, check_size_and_handle. rewrite rd_0. cbn [len length N.of_nat Pos.of_succ_nat Pos.succ N.eqb Pos.eqb negb].
+  destruct (check_handle c [12; lo; hi; olo; ohi] b out_size) as [r|] eqn:EC; [|discriminate].
+  destruct (check_handle_cases _ _ _ _ _ _ _ _ Ho EC) as [(b1 & m1 & -> & L & EA)|(-> & H0 & Hi)].
+  - intros H. mon. split; [apply same_but_reads_refl|]. split; [exact L|]. rewrite aread_none by exact EA. exact I.
+  - rewrite rd16_3. intros H. eapply read_common_sim; eauto. apply rd_0. discriminate.
+Qed.
+
+Lemma access_write_not_equal c st cid a off data st' rc :
+  access_write c st cid a off data = Some (st', rc) -> rc <> ValueEqual.
+Proof.
+  unfold access_write. destruct (get_conn st cid) as [k|]; [|discriminate].
+  destruct a as [s|u|s ch|s ch g cci|s ch cci|nm|u v]; try (intros H; inv H; discriminate).
+  - unfold value_write. rewrite security_check_spec. destruct (sec_error _ _ _); [intros H; inv H; discriminate|].
+    destruct (c_value ch) as [size kc|size v|bytes|size hrd hwr blob]; try (intros H; inv H; discriminate).
+    + destruct (kc || c_no_write ch); [intros H; inv H; discriminate|]. rewrite mem_write_splice.
+      destruct (_ <? _); [intros H; inv H; discriminate|]. destruct (_ <? _); intros H; inv H; discriminate.
+    + destruct (negb hwr); [intros H; inv H; discriminate|]. destruct (negb blob && _); [intros H; inv H; discriminate|].
+      rewrite mem_write_splice.
+      destruct (_ <? _); [intros H; inv H; discriminate|]. destruct (_ <? _); intros H; inv H; discriminate.
+  - rewrite security_check_spec. destruct (sec_error _ _ _); [intros H; inv H; discriminate|].
+    unfold cccd_write. destruct (2 <? off); [intros H; inv H; discriminate|]. destruct (2 <? _); [intros H; inv H; discriminate|].
+    destruct (off =? 0); intros H; inv H; discriminate.
+  - destruct (_ <? _); intros H; inv H; discriminate.
+Qed.
+
+Lemma slice_data op lo hi (data : list N) : slice (op :: lo :: hi :: data) 3 (len (op :: lo :: hi :: data)) = Some data.
+Proof. apply (slice_all_from (op :: lo :: hi :: data) 3). cbn [length]. lia. Qed.
+
+Lemma len3_not_lt3 (op lo hi : N) (data : list N) : (len (op :: lo :: hi :: data) <? 3) = false.
+Proof. apply N.ltb_ge. rewrite !len_cons. lia. Qed.
+
+(* Write Request / the Write Request inside a Write Command *)
+Lemma handle_write_request_sim c st a cid k op lo hi data b out_size st' b' m :
+  sim c st a -> get_conn st cid = Some k -> 23 <= out_size ->
+  handle_write_request c st cid (op :: lo :: hi :: data) b out_size = Some (st', (b', m)) ->
+  m <= len b' /\
+  match attr_of c (lo + 256 * hi) with
+  | None => sim c st' a
+  | Some at_ => sim c st' (snd (awrite c a cid at_ 0 data m_written)) /\
+                takeN m b' = match fst (awrite c a cid at_ 0 data m_written) with AOk => [19] | AErr e => err_rsp op (lo + 256 * hi) e end
+  end.
+Proof.
+  intros S G Ho. unfold handle_write_request. rewrite rd_0, len3_not_lt3.
+  destruct (check_handle c (op :: lo :: hi :: data) b out_size) as [r|] eqn:EC; [|discriminate].
+  destruct (check_handle_cases _ _ _ _ _ _ _ _ Ho EC) as [(b1 & m1 & -> & L & EA)|(-> & H0 & Hi)].
+  - intros H. mon. split; [exact L|]. rewrite EA. exact S.
+  - rewrite (attr_of_index c _ H0 Hi).
+    destruct (attribute_at c (index_by_handle c (lo + 256 * hi))) as [at_|]; [|discriminate].
+    rewrite slice_data.
+    destruct (access_write c st cid at_ 0 data) as [[st1 rc]|] eqn:EW; [|discriminate].
+    pose proof (access_write_not_equal _ _ _ _ _ _ _ _ EW) as NE.
+    destruct (access_write_sim c st a cid at_ 0 data st1 rc m_written S EW) as [R S1]. rewrite R.
+    destruct rc as [|code|]; [| |contradiction]; intros H; mon.
+    + match goal with X : put b 0 [19] = Some ?x |- _ => apply put_spec in X; destruct X as [X B]; change (N.to_nat 0) with 0%nat in *;
+        cbn [firstn app Nat.add length] in *; subst x end.
+      split; [unfold len; cbn [length]; lia|]. split; [exact S1|]. reflexivity.
+    + destruct (error_response_exact _ _ _ _ out_size _ _ ltac:(lia) E) as [L T]. split; [exact L|]. split; [exact S1|exact T].
+Qed.
+
+(* ------------------------------------------------------------------ the reference step on the judged requests *)
+Lemma astep_in_read c a cid lo hi n : astep_in c a cid [10; lo; hi] n = (a, aread c a cid 10 11 (lo + 256 * hi) 0 n true).
+Proof. reflexivity. Qed.
+
+Lemma astep_in_read_blob c a cid lo hi olo ohi n :
+  astep_in c a cid [12; lo; hi; olo; ohi] n = (a, aread c a cid 12 13 (lo + 256 * hi) (olo + 256 * ohi) n false).
+Proof. reflexivity. Qed.
+
+Lemma astep_in_write c a cid lo hi data n :
+  astep_in c a cid (18 :: lo :: hi :: data) n =
+  match attr_of c (lo + 256 * hi) with
+  | None => (a, XAny)
+  | Some at_ =>
+      let '(r, a') := awrite c a cid at_ 0 data m_written in
+      (a', XResp k_write r (value_index at_) (match r with AOk => [19] | AErr e => err_rsp 18 (lo + 256 * hi) e end))
+  end.
+Proof. reflexivity. Qed.
+
+Lemma astep_in_write_command c a cid lo hi data n :
+  astep_in c a cid (82 :: lo :: hi :: data) n =
+  match attr_of c (lo + 256 * hi) with
+  | None => (a, XAny)
+  | Some at_ => (snd (awrite c a cid at_ 0 data m_written), XAny)
+  end.
+Proof. reflexivity. Qed.
+
+Lemma astep_in_mtu c a cid lo hi n :
+  astep_in c a cid [2; lo; hi] n =
+  (if default_att_mtu <=? lo + 256 * hi
+   then set_aconn a cid (mkAC (lo + 256 * hi) (ac_enc (aconn_of a cid)) (ac_pair (aconn_of a cid))) else a, XAny).
+Proof. reflexivity. Qed.
+
+Definition aprepare (c : cfg) (a : astate) (cid : nat) (qs h off : N) (data pdu : list N) (n : N) : astate * expect :=
+  let k := aconn_of a cid in
+  match attr_of c h with
+  | None => (a, XAny)
+  | Some at_ =>
+      let g := value_index at_ in
+      let mark m := match g with Some gi => set_mark a gi m | None => a end in
+      match aperm c (ac_enc k) (ac_pair k) at_ with
+      | AErr e => (mark (if (e =? 5) || (e =? 15) then m_security else m_rejected),
+                   XResp k_prep_denied (AErr e) g (err_rsp 22 h e))
+      | AOk =>
+          let other := match as_owner a with Some o => negb (Nat.eqb o cid) | None => false end in
+          if other then (mark m_prepared, XResp k_prep_other (AErr 9) g (err_rsp 22 h 9))
+          else if qs - queue_used (as_queue a) <? elem_cost data
+          then (mark m_prepared, XResp k_prep_full (AErr 9) g (err_rsp 22 h 9))
+          else
+            let a1 := mark m_prepared in
+            (set_queue a1 (Some cid) (as_queue a1 ++ [(h, off, data)]),
+             XResp k_prep_ok AOk g (23 :: sub (tl pdu) 0 (N.min (out_limit c a cid n) (len pdu) - 1)))
+      end
+  end.
+
+Lemma astep_in_prepare c a cid lo hi olo ohi data n :
+  astep_in c a cid (22 :: lo :: hi :: olo :: ohi :: data) n =
+  match wqueue c with
+  | None => (a, XAny)
+  | Some qs => aprepare c a cid qs (lo + 256 * hi) (olo + 256 * ohi) data (22 :: lo :: hi :: olo :: ohi :: data) n
+  end.
+Proof. reflexivity. Qed.
+
+Definition aexec (c : cfg) (a : astate) (cid : nat) (flag : N) : astate * expect :=
+  if negb (flag =? 0) && negb (flag =? 1) then (a, XAny)
+  else
+    let mine := match as_owner a with Some o => Nat.eqb o cid | None => false end in
+    if (flag =? 1) && mine then
+      let '(a1, failure) := aexecute c a cid (as_queue a) in
+      (arelease c a1 cid false,
+       XResp k_exec (match failure with Some (_, e) => AErr e | None => AOk end) None
+             (match failure with Some (h, e) => err_rsp 24 h e | None => [25] end))
+    else (arelease c a cid true, XResp (if flag =? 1 then k_exec else k_exec_cancel) AOk None [25]).
+
+Lemma astep_in_execute c a cid flag n :
+  astep_in c a cid [24; flag] n = match wqueue c with None => (a, XAny) | Some _ => aexec c a cid flag end.
+Proof. reflexivity. Qed.
+
+(* ------------------------------------------------------------------ Prepare Write *)
+(* a characteristic value behind a write handler: the known finding of C07 (the probe calls the handler) *)
+Definition k2 (ch : char_decl) : bool := match c_value ch with VHandler _ _ wr _ => wr | _ => false end.
+Definition no_k2 (c : cfg) : Prop :=
+  forall i s ch g cci, attribute_at c i = Some (AValue s ch g cci) -> k2 ch = false.
+
+Lemma splice_nothing (v : list N) : splice v 0 [] = v.
+Proof. unfold splice. cbn. reflexivity. Qed.
+
+(* the probe (a write of nothing at offset 0) answers exactly the permission ... *)
+Lemma awrite_probe_result c a cid at_ m :
+  fst (awrite c a cid at_ 0 [] m) = aperm c (ac_enc (aconn_of a cid)) (ac_pair (aconn_of a cid)) at_.
+Proof.
+  destruct at_ as [s|u|s ch|s ch g cci|s ch cci|nm|u v]; cbn [awrite aperm fst]; try reflexivity.
+  - destruct (match sec_error _ _ _ with Some e => AErr e | None => if spec_writable ch then AOk else AErr 3 end) eqn:E; [|reflexivity].
+    replace (not_long ch 0) with false by (unfold not_long; destruct (c_value ch); try reflexivity; cbn; rewrite andb_false_r; reflexivity).
+    replace (len (nth g (as_vals a) []) <? 0) with false by (symmetry; apply N.ltb_ge; lia).
+    replace (len (nth g (as_vals a) []) <? 0 + len (@nil N)) with false by (symmetry; apply N.ltb_ge; unfold len; cbn [length]; lia).
+    reflexivity.
+  - destruct (sec_error _ _ _); reflexivity.
+  - replace (len nm <? 0) with false by (symmetry; apply N.ltb_ge; lia). reflexivity.
+Qed.
+
+(* ... and changes nothing the simulation relation looks at, unless a write handler is called *)
+Lemma awrite_probe_sim c st a cid at_ m :
+  (forall s ch g cci, at_ = AValue s ch g cci -> k2 ch = false) ->
+  sim c st (snd (awrite c a cid at_ 0 [] m)) -> sim c st a.
+Proof.
+  intros NK. destruct at_ as [s|u|s ch|s ch g cci|s ch cci|nm|u v]; cbn [awrite snd]; try (intros S; exact S).
+  - specialize (NK s ch g cci eq_refl).
+    destruct (aperm c _ _ _) eqn:E; [|intros [H1 H2 H3 H4 H5 H6]; constructor; assumption].
+    destruct (not_long ch 0); [intros [H1 H2 H3 H4 H5 H6]; constructor; assumption|].
+    assert (W : match c_value ch with
+                | VHandler _ _ _ _ => upd (as_wlog a) g (let '(w, e) := nth g (as_wlog a) (0, 0) in (w + 1, if len (@nil N) =? 0 then e + 1 else e))
+                | _ => as_wlog a
+                end = as_wlog a \/ spec_writable ch = false).
+    { unfold k2 in NK. unfold spec_writable. destruct (c_value ch); auto. }
+    destruct W as [W|W].
+    2:{ unfold aperm in E. rewrite W in E. destruct (sec_error _ _ _); discriminate. }
+    rewrite W.
+    destruct (_ <? _); [intros [H1 H2 H3 H4 H5 H6]; constructor; assumption|].
+    destruct (_ <? _); [intros [H1 H2 H3 H4 H5 H6]; constructor; assumption|].
+    rewrite splice_nothing, upd_same. intros [H1 H2 H3 H4 H5 H6]; constructor; assumption.
+  - destruct (aperm c _ _ _); [|intros S; exact S]. destruct (_ <? _); [intros S; exact S|]. destruct (_ <? _); intros S; exact S.
+  - destruct (_ <? _); intros S; exact S.
+Qed.
+
+Lemma wq_end_used c st a : sim c st a -> wq_end st = queue_used (as_queue a).
+Proof.
+  intros S. unfold wq_end, queue_used. rewrite (sim_queue S). pose proof (sim_qok S) as Q.
+  induction (wq_elems st) as [|e t IH]; [reflexivity|]. cbn [sumN map]. inversion Q; subst.
+  rewrite IH by assumption. f_equal. unfold elem_cost, dec_elem. cbn [snd]. destruct H1 as [L _].
+  unfold len in *. rewrite skipn_length. lia.
+Qed.
+
+Lemma sim_mark_opt c st a (g : option nat) m : sim c st a -> sim c st (match g with Some gi => set_mark a gi m | None => a end).
+Proof. intros S. destruct g; [apply sim_set_mark|]; exact S. Qed.
+
+Lemma len5_not_lt5 (op a1 a2 a3 a4 : N) (data : list N) : (len (op :: a1 :: a2 :: a3 :: a4 :: data) <? 5) = false.
+Proof. apply N.ltb_ge. rewrite !len_cons. lia. Qed.
+
+Lemma handle_prepare_write_sim c st a cid k qs lo hi olo ohi data b out_size n st' b' m :
+  sim c st a -> get_conn st cid = Some k -> no_k2 c -> wqueue c = Some qs -> 23 <= out_size -> out_size = out_limit c a cid n ->
+  handle_prepare_write c st cid (22 :: lo :: hi :: olo :: ohi :: data) b out_size = Some (st', (b', m)) ->
+  m <= len b' /\
+  sim c st' (fst (aprepare c a cid qs (lo + 256 * hi) (olo + 256 * ohi) data (22 :: lo :: hi :: olo :: ohi :: data) n)) /\
+  sat (snd (aprepare c a cid qs (lo + 256 * hi) (olo + 256 * ohi) data (22 :: lo :: hi :: olo :: ohi :: data) n)) (OBytes (takeN m b')).
+Proof.
+  intros S G NK Hq Ho Hl. unfold handle_prepare_write. rewrite rd_0, Hq, len5_not_lt5.
+  set (pdu := 22 :: lo :: hi :: olo :: ohi :: data).
+  destruct (check_handle c pdu b out_size) as [r|] eqn:EC; [|discriminate].
+  destruct (check_handle_cases _ _ _ _ _ _ _ _ Ho EC) as [(b1 & m1 & -> & L & EA)|(-> & H0 & Hi)].
+  - intros H. mon. split; [exact L|]. unfold aprepare. rewrite EA. split; [exact S|exact I].
+  - unfold aprepare. rewrite (attr_of_index c _ H0 Hi).
+    destruct (attribute_at c (index_by_handle c (lo + 256 * hi))) as [at_|] eqn:EA; [|discriminate].
+    unfold access_check_write.
+    destruct (access_write c st cid at_ 0 []) as [[st1 rc]|] eqn:EW; [|discriminate].
+    pose proof (access_write_not_equal _ _ _ _ _ _ _ _ EW) as NE.
+    destruct (access_write_sim c st a cid at_ 0 [] st1 rc m_none S EW) as [R S1].
+    rewrite awrite_probe_result in R.
+    apply awrite_probe_sim in S1; [|intros s ch g cci ->; eapply NK; eauto].
+    cbv zeta. rewrite R.
+    destruct rc as [|code|]; [| |contradiction]; cbn [to_ares].
+    + (* a write is permitted *)
+      assert (SL : slice pdu 1 (len pdu) = Some (tl pdu)) by (apply (slice_all_from pdu 1); cbn [length pdu]; lia).
+      rewrite SL. unfold wq_allocate. rewrite (wq_end_used c st1 a S1), <- (sim_owner S1).
+      replace (len (tl pdu) + 2) with (elem_cost data) by (unfold pdu, elem_cost; cbn [tl]; rewrite !len_cons; lia).
+      destruct (match as_owner a with Some o => negb (Nat.eqb o cid) | None => false end) eqn:EO.
+      * rewrite orb_true_r. intros H. mon. destruct (error_response_exact _ _ _ _ out_size _ _ ltac:(lia) E) as [L T].
+        split; [exact L|]. split; [apply sim_mark_opt; exact S1|]. cbn [snd sat]. rewrite T. reflexivity.
+      * rewrite orb_false_r. destruct (qs - queue_used (as_queue a) <? elem_cost data).
+        -- intros H. mon. destruct (error_response_exact _ _ _ _ out_size _ _ ltac:(lia) E) as [L T].
+           split; [exact L|]. split; [apply sim_mark_opt; exact S1|]. cbn [snd sat]. rewrite T. reflexivity.
+        -- intros H. mon.
+           match goal with X : slice pdu 1 _ = Some ?e, Y : put b 0 [23] = Some ?x, Z : put ?x 1 ?e = Some _ |- _ =>
+             destruct (put_opcode_then_data _ _ _ _ _ Y Z) as [L T]; rename X into SE; rename e into echo end.
+           assert (Hn : 1 <= N.min out_size (len pdu) /\ N.min out_size (len pdu) <= len pdu)
+             by (unfold pdu; rewrite !len_cons; lia).
+           assert (EL : 1 + len echo = N.min out_size (len pdu)).
+           { unfold slice in SE. destruct ((1 <=? N.min out_size (len pdu)) && (N.min out_size (len pdu) <=? len pdu)); [|discriminate].
+             apply some_inj in SE. subst echo. rewrite len_takeN, len_dropN. lia. }
+           rewrite EL in L, T. split; [exact L|]. split.
+           ++ set (a1 := match value_index at_ with Some gi => set_mark a gi m_prepared | None => a end).
+              assert (S2 : sim c st1 a1) by (apply sim_mark_opt; exact S1).
+              destruct S2 as [H1 H2 H3 H4 H5 H6]. constructor; cbn [fst set_queue set_wq as_vals as_wlog as_conns as_owner as_queue vals hlogs conns wq_owner wq_elems]; try assumption.
+              ** reflexivity.
+              ** rewrite H5, map_app. reflexivity.
+              ** apply Forall_app. split; [exact H6|]. constructor; [|constructor]. split.
+                 { unfold pdu. cbn [tl]. rewrite !len_cons. lia. }
+                 { unfold pdu, dec_elem. cbn [tl nth fst]. rewrite (attr_of_index c _ H0 Hi), EA. discriminate. }
+           ++ cbn [snd sat]. rewrite T. f_equal. f_equal. rewrite <- Hl.
+              unfold slice in SE. destruct ((1 <=? N.min out_size (len pdu)) && (N.min out_size (len pdu) <=? len pdu)); [|discriminate].
+              apply some_inj in SE. subst echo. unfold sub, takeN, dropN, pdu. cbn [N.to_nat Pos.to_nat Pos.iter_op skipn tl]. reflexivity.
+    + (* refused *)
+      intros H. mon. destruct (error_response_exact _ _ _ _ out_size _ _ ltac:(lia) E) as [L T].
+      split; [exact L|]. split; [apply sim_mark_opt; exact S1|]. cbn [snd sat]. rewrite T. reflexivity.
+Qed.
